@@ -23,6 +23,9 @@ def oracle(case, block):
     F = [WE[e] for e in range(m) if index[e] >= dim]
     if not is_forest(n, F): return "on-forest edges contain a cycle"
     if components(n, F) != c: return "on-forest edges do not connect every component"
+    held = line(block, "held"); conc = line(block, "conc")
+    if held is not None and list(map(int, held)) != index: return "edge-to-index results held by reference change when further lookups are made"
+    if conc is not None and int(conc[0]) != 0: return "%s wrong answers from concurrent const lookups" % conc[0]
     # copies answer like the original
     orig = ["index"] + line(block, "index") + ["rev"] + line(block, "rev") + ["onforest"] + line(block, "onforest") + ["dim", str(dim), "k", str(k)]
     for tag in ("assigned", "copied"):
